@@ -16,6 +16,17 @@ CLAIMED = {
     "C16": ("utils::make_diff_patch + apply_diff_patch (incl. the yavomrs Myers implementation) executed from MIR: for ALL pairs of arrays with repetitions "
             "up to length 3 (quick) / 5 (thorough) the patched array equals the submitted one and the patch is empty iff nothing changed.", "DESIGN.md §5 C16"),
 }
+CLAIMED.update({
+    "C05": ("RevisionTree (add / unvalidated_add / validate / is_valid_cached / get_leafs / get_winner) and Revision order executed from MIR: for ALL sets of up to 3 "
+            "(thorough 4) change records of every shape (creations, updates, deletions, resolution markers, dangling parents, duplicates), symbolic digests, every order "
+            "of learning and the explored hash-iteration orders, leaves and winner equal the stated rule evaluated by an independent oracle. Tree level only; the "
+            "Melda-level getters are not yet covered.", "DESIGN.md §5 C05"),
+    "C15": ("Kernel part: RevisionTree staging. For ALL trees of up to 2 committed + 2 staged records (shapes and digests symbolic) unstage() restores exactly the "
+            "committed entries, leaves and winner; commit() clears every staged flag and changes nothing else. Melda-level stage/replay/guards not yet covered.", "DESIGN.md §5 C15"),
+    "C19": ("revision.rs executed from MIR on symbolic system-producible revisions (derivation depth <= 1, thorough 2; parsed revisions with index over the whole u32 "
+            "range): cmp antisymmetric/total/transitive, Equal <=> ==, == <=> same text, equal => same hash stream, order == stated rule, print/parse round trip, "
+            "identical edits give identical revisions, digest independent of insertion order.", "DESIGN.md §5 C19"),
+})
 NA_REASON_PENDING = "check not built yet in this revision of /verif (Melda-level MIR reach in progress); not claimed"
 
 checks = []
